@@ -109,6 +109,8 @@ pub mod ignore {
         pub uninterp spec fn ovr_ignores(o: &Override, p: &Path) -> bool;
         impl Override {
             #[verifier::external_body]
+            pub fn empty() -> Override { unimplemented!() }
+            #[verifier::external_body]
             pub fn is_empty(&self) -> (r: bool) ensures r == ovr_empty(self) { unimplemented!() }
             #[verifier::external_body]
             pub fn matched(&self, path: &Path, is_dir: bool) -> (m: crate::ignore::Match<Glob>)
@@ -119,9 +121,15 @@ pub mod ignore {
     use vstd::prelude::*;
     pub struct Match<T> { _p: core::marker::PhantomData<T> }
     impl<T> Match<T> {
+        /// ghost: which of the three variants (None / Ignore / Whitelist) the match is
         pub uninterp spec fn v_ignore(&self) -> bool;
+        pub uninterp spec fn v_whitelist(&self) -> bool;
         #[verifier::external_body]
         pub fn is_ignore(&self) -> (r: bool) ensures r == self.v_ignore() { unimplemented!() }
+        #[verifier::external_body]
+        pub fn is_whitelist(&self) -> (r: bool) ensures r == self.v_whitelist(), r ==> !self.v_ignore() { unimplemented!() }
+        #[verifier::external_body]
+        pub fn is_none(&self) -> (r: bool) ensures r == (!self.v_ignore() && !self.v_whitelist()) { unimplemented!() }
     }
 }
 
@@ -152,6 +160,10 @@ pub mod grep {
         use vstd::prelude::*;
         #[derive(Clone, Debug)]
         pub struct BinaryDetection { _p: u8 }
+        impl BinaryDetection {
+            #[verifier::external_body]
+            pub fn none() -> BinaryDetection { unimplemented!() }
+        }
         #[derive(Clone, Debug)]
         pub struct Searcher { _p: u8 }
         impl Searcher {
@@ -173,12 +185,22 @@ pub mod grep {
             #[verifier::external_body]
             fn from(e: CommandError) -> io::Error { unimplemented!() }
         }
-        #[derive(Clone, Debug)]
-        pub struct CommandReaderBuilder { _p: u8 }
+        /// the builder's one setting that matters here: stderr of the command is drained on a helper thread
+        /// (so that a command writing a lot to stderr cannot block); off by default, as in the real builder
+        #[derive(Debug)]
+        pub struct CommandReaderBuilder { pub async_stderr: bool }
+        impl Clone for CommandReaderBuilder {
+            fn clone(&self) -> (r: Self) ensures r == *self { CommandReaderBuilder { async_stderr: self.async_stderr } }
+        }
         #[derive(Debug)]
         pub struct CommandReader { _p: u8 }
         impl io::Read for CommandReader {}
         impl CommandReaderBuilder {
+            pub fn new() -> (r: CommandReaderBuilder) ensures !r.async_stderr { CommandReaderBuilder { async_stderr: false } }
+            #[verifier::external_body]
+            pub fn async_stderr(&mut self, yes: bool) -> &mut CommandReaderBuilder
+                ensures final(self).async_stderr == yes,
+            { unimplemented!() }
             /// starting the command may fail; nothing is assumed about the reader it yields
             #[verifier::external_body]
             pub fn build(&self, command: &mut Command) -> (r: Result<CommandReader, CommandError>) { unimplemented!() }
@@ -197,15 +219,24 @@ pub mod grep {
             #[verifier::external_body]
             pub fn has_command(&self, path: &Path) -> (r: bool) ensures r == dm_has_command(self, path) { unimplemented!() }
         }
-        #[derive(Clone, Debug)]
-        pub struct DecompressionReaderBuilder { _p: u8 }
+        #[derive(Debug)]
+        pub struct DecompressionReaderBuilder { pub async_stderr: bool, pub matcher: DecompressionMatcher }
+        impl Clone for DecompressionReaderBuilder {
+            #[verifier::external_body]
+            fn clone(&self) -> (r: Self) ensures r == *self { unimplemented!() }
+        }
         #[derive(Debug)]
         pub struct DecompressionReader { _p: u8 }
         impl io::Read for DecompressionReader {}
         impl DecompressionReaderBuilder {
-            pub uninterp spec fn v_matcher(&self) -> DecompressionMatcher;
             #[verifier::external_body]
-            pub fn get_matcher(&self) -> (r: &DecompressionMatcher) ensures *r == self.v_matcher() { unimplemented!() }
+            pub fn new() -> (r: DecompressionReaderBuilder) ensures !r.async_stderr { unimplemented!() }
+            #[verifier::external_body]
+            pub fn async_stderr(&mut self, yes: bool) -> &mut DecompressionReaderBuilder
+                ensures final(self).async_stderr == yes, final(self).matcher == old(self).matcher,
+            { unimplemented!() }
+            pub open spec fn v_matcher(&self) -> DecompressionMatcher { self.matcher }
+            pub fn get_matcher(&self) -> (r: &DecompressionMatcher) ensures *r == self.v_matcher() { &self.matcher }
             #[verifier::external_body]
             pub fn build(&self, path: &Path) -> (r: Result<DecompressionReader, CommandError>) { unimplemented!() }
         }
